@@ -69,4 +69,22 @@ PROPS = {
   trusted_base=["hash/maphash (an arbitrary function of seed and bytes written)", "math/big normalisation of Rat"],
   assumptions=[],
  ),
+
+ "C03": dict(
+  families=[dict(name="ref", model="val", quick=1500, thorough=40000),
+            dict(name="uri", model="uri", quick=3000, thorough=60000),
+            dict(name="suite2020", model="val", quick=0, thorough=0)],
+  rule="G-ref: universes with a root ($id none/absolute/dir/urn/trailing slash; BaseURI empty/absolute), 0-2 embedded resources (relative, absolute-path, absolute, urn, ../ and ./ ids) each with inner pointer and anchor targets, 0-2 loader documents (relative/deep/../ retrieval URIs, optional canonical $id alias, links back to earlier documents and to the root: chains, diamonds, cycles; loader failure on 1/14 of URIs; Loader nil in 1/12), up to 6 references in every syntactic form plus 1/7 invalid ones; each candidate target has a unique const marker and the verdict matrix {h_i: marker_k} reads off the reached target; loader calls compared as sequences; "
+       "family uri: (base, ref) pairs against net/url (Parse, ResolveReference, String, Fragment, IsAbs); non-trivial: >= 1 embedded or loader document and >= 2 references; distinct by document hash",
+  partial="no lexical designation specification is proved against the resolver model yet; loader-once and termination are observed on every case (call sequences compared) but not proved",
+  trusted_base=["net/url modelled by uri/Uri.v on a restricted alphabet (compared with net/url on every run)", "encoding/json text layer"],
+  assumptions=["coherent universes: the loader returns a fresh copy of one document per URI", "duplicate $id within a document is not generated"],
+ ),
+ "C17": dict(
+  families=[dict(name="ptr", model="val", quick=1500, thorough=40000),
+            dict(name="ref", model="val", quick=500, thorough=10000)],
+  rule="G-ptr: trees of up to 14 nodes with subschemas under every schema-holding keyword of both drafts (incl. array-form items and schema-valued dependencies), keyed by 26 hostile strings ('', '/', '~', '~0', '~01', '%', '%25', spaces, non-ASCII, digits, '-', '+1', keyword names), up to 7 references written as the percent-encoded RFC 6901 pointer of a location, 1/3 of cases with one invalid pointer (trailing slash, '-', signs, leading zeros, out of range, bad escapes, absent keyword, case variants, through non-schema fields); node k rejects exactly {m_k: 0}; non-trivial: >= 3 nodes; distinct by document hash",
+  trusted_base=["net/url fragment percent-decoding (modelled with UTF-8 decoding in uri/Uri.v; compared on every run)", "strconv.Atoi replaced by the model's digit parser (agreement checked by the ptr family)"],
+  assumptions=[],
+ ),
 }
